@@ -157,4 +157,152 @@ theorem C02_kernel_force (r f : Rat) : evalQ (envQ [r, f]) k_dlpoly_force = r * 
   kernel_unfold [k_dlpoly_force]
   kernel_close
 
+/-! ## The code itself: the DL_POLY TABLE writer regenerated from the source
+
+`Atsim.Gen.Logic.dlpoly_write_potentials / dlpoly_write_header / dlpoly_write_potential` are `_dlpoly_writeTABLE.writePotentials / _writeTableHeader /
+_writePotential` as produced by `translator/py2lean_logic.py` on every run (one token per `write`, format text and arguments as in the source; the
+`raise WritePotentialException` is `.error`).  `renderTable` is how the model's `DTable` reads in the same tokens.  `C02_code_writer`: for EVERY list of
+potentials, cutoff, row count and prior stream content the code either raises exactly when the model rejects, or appends exactly the model's table:
+the 80-blank line and header `(delpot, cutpot, ngrid)`, then per potential the label line, the energies in records of four, the `-r dU/dr` values in records of four,
+each value passed through `_representable`, the abscissae accumulated by `r += meshResolution`. -/
+namespace Writer
+open Atsim.Gen.Logic
+
+def toRec (p : Pot) : PotRec := ⟨p.a, p.b, p.fid⟩
+
+def slotOV (what : String) : Slot → OV
+  | .val fid x => .repr (.fn what fid x)
+  | .zero => .repr (.num 0)
+
+def dataTemplate : String := " % 14.7e % 14.7e % 14.7e % 14.7e\n"
+
+def renderBlock (b : DBlock) : List Tok :=
+  [⟨"%8s%8s\n", [.str b.a, .str b.b]⟩] ++ b.energies.map (fun g => ⟨dataTemplate, g.map (slotOV "energy")⟩) ++ b.forces.map (fun g => ⟨dataTemplate, g.map (slotOV "r*force")⟩)
+
+def renderTable (t : DTable) : List Tok :=
+  [⟨"                                                                                \n", []⟩,
+   ⟨"%15.8e%15.8e%10d\n", [.num t.delpot, .num t.cutpot, .int t.ngrid]⟩] ++ t.blocks.flatMap renderBlock
+
+end Writer
+
+namespace Writer
+open Atsim.Gen.Logic
+
+/-- the slots the `r += meshResolution` loop visits when run over a list (the loop variable itself is unused) starting from `r` -/
+def vals (fid : Fid) (mesh : Rat) : Rat → List Int → List Slot
+  | _, [] => []
+  | r, _ :: xs => Slot.val fid (r + mesh) :: vals fid mesh (r + mesh) xs
+
+/-- one four-value record as the code writes it -/
+def tokOf (what : String) (g : List Slot) : Tok := ⟨dataTemplate, g.map (slotOV what)⟩
+
+@[simp] theorem toRec_fid (p : Pot) : (toRec p).fid = p.fid := rfl
+
+theorem loop2_eq (p : Pot) (cut : Rat) (gp : Int) (mesh : Rat) (out : List Tok) :
+    ∀ (xs : List Int) (ob : List Tok) (r : Rat),
+      dlpoly_write_potential_loop2 cut gp [] mesh out ob (toRec p) r xs =
+        .ok (out ++ (ob ++ (groupsOf4 (vals p.fid mesh r xs)).map (tokOf "r*force")))
+  | [], ob, r => by simp [dlpoly_write_potential_loop2, vals, groupsOf4]
+  | [_], ob, r => by simp [dlpoly_write_potential_loop2, vals, groupsOf4]
+  | [_, _], ob, r => by simp [dlpoly_write_potential_loop2, vals, groupsOf4]
+  | [_, _, _], ob, r => by simp [dlpoly_write_potential_loop2, vals, groupsOf4]
+  | _ :: _ :: _ :: _ :: rest, ob, r => by
+    simp [dlpoly_write_potential_loop2, vals, groupsOf4, loop2_eq p cut gp mesh out rest, tokOf, dataTemplate,
+      slotOV, representable, rForceOf]
+
+theorem loop1_eq (p : Pot) (cut : Rat) (gp : Int) (mesh : Rat) (out : List Tok) :
+    ∀ (xs : List Int) (ob : List Tok) (r : Rat),
+      dlpoly_write_potential_loop1 cut gp [] mesh out ob (toRec p) r xs =
+        dlpoly_write_potential_loop2 cut gp [] mesh out (ob ++ (groupsOf4 (vals p.fid mesh r xs)).map (tokOf "energy"))
+          (toRec p) 0 (intRange 0 gp)
+  | [], ob, r => by simp [dlpoly_write_potential_loop1, vals, groupsOf4]
+  | [_], ob, r => by simp [dlpoly_write_potential_loop1, vals, groupsOf4]
+  | [_, _], ob, r => by simp [dlpoly_write_potential_loop1, vals, groupsOf4]
+  | [_, _, _], ob, r => by simp [dlpoly_write_potential_loop1, vals, groupsOf4]
+  | _ :: _ :: _ :: _ :: rest, ob, r => by
+    simp [dlpoly_write_potential_loop1, vals, groupsOf4, loop1_eq p cut gp mesh out rest, tokOf, dataTemplate,
+      slotOV, representable, energyOf]
+
+theorem vals_eq (fid : Fid) (mesh : Rat) :
+    ∀ (xs : List Int) (k : Nat),
+      vals fid mesh (accum mesh k) xs = (List.range xs.length).map fun i => Slot.val fid (accum mesh (k + i + 1)) := by
+  intro xs
+  induction xs with
+  | nil => intro k; simp [vals]
+  | cons x xs ih =>
+    intro k
+    have h : accum mesh k + mesh = accum mesh (k + 1) := rfl
+    simp only [vals, h, ih, List.length_cons, List.range_succ_eq_map, List.map_cons, List.map_map]
+    refine congrArg₂ _ rfl (List.map_congr_left ?_)
+    intro i _
+    simp only [Function.comp]
+    congr 2
+    omega
+
+theorem vals_intRange (fid : Fid) (mesh : Rat) (ngrid : Nat) :
+    vals fid mesh 0 (intRange 0 (ngrid : Int)) = (List.range ngrid).map fun i => Slot.val fid (accum mesh (i + 1)) := by
+  have h := vals_eq fid mesh (intRange 0 (ngrid : Int)) 0
+  simpa [intRange, accum] using h
+
+/-- `_writePotential` with a row count divisible by four appends the model's block -/
+theorem potential_eq (p : Pot) (cut : Rat) (ngrid : Nat) (mesh : Rat) (out : List Tok) (h4 : ngrid % 4 = 0) :
+    dlpoly_write_potential (toRec p) cut (ngrid : Int) mesh out = .ok (out ++ renderBlock (dlpolyBlock p ngrid mesh)) := by
+  have hc : (!(((ngrid : Int) % (4 : Int)) == (0 : Int))) = false := by
+    have : ((ngrid : Int) % 4) = 0 := by omega
+    simp [this]
+  simp only [dlpoly_write_potential, hc, Bool.false_eq_true, if_false]
+  rw [loop1_eq, loop2_eq, vals_intRange]
+  simp [renderBlock, dlpolyBlock, toRec]
+  rfl
+
+theorem potential_err (p : PotRec) (cut : Rat) (ngrid : Nat) (mesh : Rat) (out : List Tok) (h4 : ngrid % 4 ≠ 0) :
+    dlpoly_write_potential p cut (ngrid : Int) mesh out = .error WErr.notMultipleOfFour := by
+  have hc : (!(((ngrid : Int) % (4 : Int)) == (0 : Int))) = true := by
+    have : ((ngrid : Int) % 4) ≠ 0 := by omega
+    simp [this]
+  simp only [dlpoly_write_potential, hc, if_true]
+
+theorem potentials_loop_eq (cut : Rat) (ngrid : Nat) (mesh : Rat) (out : List Tok) (orig : List PotRec) (h4 : ngrid % 4 = 0) :
+    ∀ (ps : List Pot) (ob : List Tok),
+      dlpoly_write_potentials_loop1 cut (ngrid : Int) mesh out ob orig (ps.map toRec) =
+        .ok (out ++ (ob ++ ps.flatMap fun p => renderBlock (dlpolyBlock p ngrid mesh))) := by
+  intro ps
+  induction ps with
+  | nil => intro ob; simp [dlpoly_write_potentials_loop1]
+  | cons p ps ih =>
+    intro ob
+    simp only [List.map_cons, dlpoly_write_potentials_loop1, potential_eq p cut ngrid mesh ob h4, andThen, ih,
+      List.flatMap_cons, List.append_assoc]
+
+end Writer
+
+open Atsim.Gen.Logic in
+/-- **code tie (whole table)** -/
+theorem C02_code_writer (pots : List Pot) (cut : Rat) (ngrid : Nat) (out : List Tok) :
+    dlpoly_write_potentials (pots.map Writer.toRec) cut (ngrid : Int) out =
+      (match dlpolyTable pots cut ngrid with
+       | none => .error WErr.notMultipleOfFour
+       | some t => .ok (out ++ Writer.renderTable t)) := by
+  have hmesh : cut / ((((ngrid : Nat) : Int) : Rat) - (4 : Rat)) = meshResolution cut ngrid := by
+    simp [meshResolution]
+  by_cases h4 : ngrid % 4 = 0
+  · have hm : dlpolyTable pots cut ngrid = some ⟨meshResolution cut ngrid, cut, ngrid,
+        pots.map fun p => dlpolyBlock p ngrid (meshResolution cut ngrid)⟩ := by
+      simp [dlpolyTable, h4]
+    rw [hm]
+    simp only [dlpoly_write_potentials, hmesh]
+    rw [Writer.potentials_loop_eq cut ngrid _ out _ h4]
+    simp [Writer.renderTable, dlpoly_write_header, List.flatMap_map]
+  · cases pots with
+    | nil =>
+      simp [dlpolyTable, dlpoly_write_potentials, dlpoly_write_potentials_loop1, dlpoly_write_header, Writer.renderTable,
+        meshResolution]
+    | cons p ps =>
+      have hm : dlpolyTable (p :: ps) cut ngrid = none := by
+        simp [dlpolyTable, h4]
+      rw [hm]
+      simp only [dlpoly_write_potentials, List.map_cons, dlpoly_write_potentials_loop1,
+        Writer.potential_err _ cut ngrid _ _ h4, andThen]
+
+
 end Atsim.C02
